@@ -498,6 +498,140 @@ func c17broker(c *core.Ctx) {
 	}
 }
 
+// c17oddIDs: a peer that uses packet identifier 0 (which MQTT forbids and the
+// library's decoders accept).  Whatever the broker makes of such packets -
+// answer them with identifier 0, or end the connection - what it writes is
+// whole packets: the answers to the packets in front, in order, each complete.
+func c17oddIDs(c *core.Ctx) {
+	name := "broker: requests with packet identifier 0 between ordinary ones"
+	dev := 1
+	if c.Thorough() {
+		dev = 2
+	}
+	body := func() {
+		t := newTD()
+		x := t.connect("X", 0, 65535, false)
+		if vsched.Failed() {
+			return
+		}
+		reqs := []*refcodec.Packet{
+			{Type: refcodec.PUBLISH, Topic: []byte("t"), QoS: 1, ID: 0, Payload: []byte("a")},
+			{Type: refcodec.PUBLISH, Topic: []byte("t"), QoS: 1, ID: 7, Payload: []byte("b")},
+			{Type: refcodec.PUBLISH, Topic: []byte("t"), QoS: 2, ID: 0, Payload: []byte("c")},
+			{Type: refcodec.PUBREL, ID: 0},
+			{Type: refcodec.UNSUBSCRIBE, ID: 0, Topics: [][]byte{[]byte("x")}},
+			{Type: refcodec.SUBSCRIBE, ID: 0, Topics: [][]byte{[]byte("y")}, QoSs: []byte{1}},
+			{Type: refcodec.PUBLISH, Topic: []byte("t"), QoS: 1, ID: 8, Payload: []byte("d")},
+			{Type: refcodec.PINGREQ},
+		}
+		want := []byte{refcodec.PUBACK, refcodec.PUBACK, refcodec.PUBREC, refcodec.PUBCOMP, refcodec.UNSUBACK, refcodec.SUBACK, refcodec.PUBACK, refcodec.PINGRESP}
+		wantID := []uint16{0, 7, 0, 0, 0, 0, 8, 0}
+		var wire []byte
+		for _, r := range reqs {
+			wire = append(wire, refcodec.Encode(r)...)
+		}
+		vsched.Mark()
+		x.rc.Conn.Write(wire)
+		t.settleExcept()
+		if t.badStream() {
+			return
+		}
+		got := x.rc.Take()
+		for i, g := range got {
+			if i >= len(want) || g.Type != want[i] || (g.Type != refcodec.PINGRESP && g.ID != wantID[i]) {
+				vsched.Failf("answer %d on the connection is %s; the requests were %s", i+1, g, Describe(reqs))
+				return
+			}
+		}
+		if len(got) < len(want) && !x.rc.EOF && x.rc.ReadErr == "" {
+			vsched.Failf("the broker answered %d of %d requests and keeps the connection open: %s", len(got), len(want), Describe(got))
+			return
+		}
+		vsched.Logf("ok %d", len(got))
+	}
+	st := c.RunSched(explore.SchedOpts{Name: name, Bound: -1, DevBound: dev, Cache: true, UseMark: true, Body: body, MaxPoints: 100000, Check: schedCheck, Shard: c.Shard, NShards: c.NShards},
+		func(v *explore.Violation) string { return "C17 " + name + " :: " + violClass(v.Message) })
+	if st != nil && c.Shard == 0 {
+		c.Rep.Sample(map[string]interface{}{"scenario": name, "deviations": dev, "executions": st.Executions, "states": st.States})
+	}
+}
+
+// c17clientDisconnect: the client role.  The application publishes (QoS 0, so
+// Publish returns as soon as the packet is in the outgoing ring) and calls
+// Disconnect at once.  What the server reads until the end of the connection
+// is whole packets: the publishes or a prefix of them, a DISCONNECT if any at a
+// packet boundary; the connection may end inside a packet, but nothing may be
+// written into the middle of one.
+func c17clientDisconnect(c *core.Ctx) {
+	dev := 2
+	if c.Thorough() {
+		dev = 3
+	}
+	for _, sizes := range [][]int{{8000, 8000, 8000}, {100}, {8150, 8150}} {
+		if c.Expired() || c.HasViolation() {
+			return
+		}
+		sizes := sizes
+		name := fmt.Sprintf("client: Publish %v bytes (QoS 0), then Disconnect at once", sizes)
+		body := func() {
+			w := NewClientWorld()
+			if !w.Connected("cid") {
+				return
+			}
+			w.Srv.Take()
+			vsched.Mark()
+			vsched.Go("app", func() {
+				for i, n := range sizes {
+					if _, err := w.Issue("pub0", []string{"t"}, nil, big(n, byte(i+1))); err != nil {
+						return
+					}
+				}
+				w.Cl.Disconnect()
+			})
+			// the server reads to the end
+			var rx []byte
+			buf := make([]byte, 65536)
+			for {
+				n, err := w.Srv.Conn.Read(buf)
+				rx = append(rx, buf[:n]...)
+				if err != nil {
+					break
+				}
+			}
+			vsched.Quiesce()
+			pkts, rest, perr := refcodec.Split(rx)
+			if perr != nil {
+				vsched.Failf("what the client wrote is not a sequence of packets: after %d whole packets the stream goes on with %x... (%d bytes in all)", len(pkts), head(rest, 12), len(rx))
+				return
+			}
+			k := 0
+			for i, p := range pkts {
+				switch {
+				case p.Type == refcodec.PUBLISH && k < len(sizes) && len(p.Payload) == sizes[k] && string(p.Payload) == big(sizes[k], byte(k+1)):
+					k++
+				case p.Type == refcodec.DISCONNECT && i == len(pkts)-1 && len(rest) == 0:
+				default:
+					vsched.Failf("packet %d of the client's stream is %s (published: %v bytes, then Disconnect)", i+1, p, sizes)
+					return
+				}
+			}
+			if len(rest) > 0 {
+				// the connection ended inside a packet: it has to be the next publish
+				if k >= len(sizes) || rest[0] != 0x30 {
+					vsched.Failf("the client's stream ends with %d bytes that begin no publish of the application: %x...", len(rest), head(rest, 12))
+					return
+				}
+			}
+			vsched.Logf("ok %d/%d %d", k, len(sizes), len(rest))
+		}
+		st := c.RunSched(explore.SchedOpts{Name: name, Bound: -1, DevBound: dev, Cache: true, UseMark: true, Body: body, MaxPoints: 100000, Check: schedCheck, Shard: c.Shard, NShards: c.NShards},
+			func(v *explore.Violation) string { return "C17 " + name + " :: " + violClass(v.Message) })
+		if st != nil && c.Shard == 0 {
+			c.Rep.Sample(map[string]interface{}{"scenario": name, "deviations": dev, "executions": st.Executions, "states": st.States})
+		}
+	}
+}
+
 // blockPayload makes a QoS 0 PUBLISH on topic "big" exactly 8192 bytes long
 // (one read block): 1 type byte + 2 length bytes + 2 + 3 topic bytes + payload.
 const blockPayload = 8192 - 1 - 2 - 2 - 3
@@ -571,6 +705,14 @@ func C17(c *core.Ctx) {
 		return
 	}
 	c17wrap(c)
+	if c.HasViolation() {
+		return
+	}
+	c17oddIDs(c)
+	if c.HasViolation() {
+		return
+	}
+	c17clientDisconnect(c)
 }
 
 func init() { core.Register("C17", C17) }
